@@ -4,6 +4,7 @@ package types
 
 import (
 	"go/ast"
+	"go/token"
 	"go/types"
 	"strings"
 
@@ -385,6 +386,78 @@ func spec_flags(m map[string]bool, keys []string, n int) []bool {
 //@   pure
 //@   requires v != nil
 //@   ensures result == v.sumFile
+
+// ---- Doc / Comment look-ups (C12) ----
+
+// spec_filterGo(lines, n): the first n lines without those that start with `go:` (directives), in order.
+func spec_filterGo(lines []string, n int) []string {
+	if n <= 0 {
+		return nil
+	}
+	if strings.HasPrefix(lines[n-1], "go:") {
+		return spec_filterGo(lines, n-1)
+	}
+	return append(spec_filterGo(lines, n-1), lines[n-1])
+}
+
+// spec_groupLines(g): the lines of a comment group as Doc/Comment report them (nothing for a missing group).
+func spec_groupLines(g *ast.CommentGroup) []string {
+	if g == nil {
+		return nil
+	}
+	return spec_filterGo(strings.Split(strings.TrimSpace(g.Text()), "\n"), len(strings.Split(strings.TrimSpace(g.Text()), "\n")))
+}
+
+func spec_allLines(groups []*ast.CommentGroup, n int) []string {
+	if n <= 0 {
+		return nil
+	}
+	return append(spec_allLines(groups, n-1), spec_groupLines(groups[n-1])...)
+}
+
+//@ func commentLinesFrom
+//@   props C12
+//@   pure
+//@   ensures eq(comments, spec_allLines(commentGroups, len(commentGroups)))
+//@   loop 1 invariant eq(comments, spec_allLines(commentGroups, it1))
+//@   loop 2 invariant commentGroup != nil && eq(xs2, strings.Split(strings.TrimSpace(commentGroup.Text()), "\n")) && eq(comments, append(spec_allLines(commentGroups, it1), spec_filterGo(xs2, it2)...))
+
+// spec_leadingAt / spec_trailingAt: the comment group indexed for (file of pos, line of pos + delta).
+func spec_leadingAt(p *pkgInfo, pos token.Pos, delta int) *ast.CommentGroup {
+	return p.endLineToCommentGroup[fileLine{p.Package.Fset.Position(pos).Filename, p.Package.Fset.Position(pos).Line + delta}]
+}
+
+func spec_trailingAt(p *pkgInfo, pos token.Pos) *ast.CommentGroup {
+	return p.endLineToTrailingCommentGroup[fileLine{p.Package.Fset.Position(pos).Filename, p.Package.Fset.Position(pos).Line}]
+}
+
+func spec_hasTrailingAt(p *pkgInfo, pos token.Pos) bool {
+	return spec_has(p.endLineToTrailingCommentGroup, fileLine{p.Package.Fset.Position(pos).Filename, p.Package.Fset.Position(pos).Line})
+}
+
+//@ func pkgInfo.priorCommentLines
+//@   props C12
+//@   pure
+//@   requires p != nil && p.Package != nil && p.Package.Fset != nil
+//@   ensures deltaLines == 0 && spec_hasTrailingAt(p, pos) ==> result == spec_trailingAt(p, pos)
+//@   ensures !(deltaLines == 0 && spec_hasTrailingAt(p, pos)) ==> result == spec_leadingAt(p, pos, deltaLines)
+
+//@ func pkgInfo.Doc
+//@   props C12 C06
+//@   pure
+//@   requires p != nil && p.Package != nil && p.Package.Fset != nil
+//@   ensures result0 != nil
+//@   ensures eq(result1, spec_others(spec_groupLines(spec_leadingAt(p, pos, -1)), spec_markers(nil), len(spec_groupLines(spec_leadingAt(p, pos, -1)))))
+//@   ensures forall k string :: eq(result0[k], spec_vals(spec_groupLines(spec_leadingAt(p, pos, -1)), spec_markers(nil), k, len(spec_groupLines(spec_leadingAt(p, pos, -1)))))
+//@   ensures forall k string :: has(result0, k) == (len(spec_vals(spec_groupLines(spec_leadingAt(p, pos, -1)), spec_markers(nil), k, len(spec_groupLines(spec_leadingAt(p, pos, -1))))) > 0)
+//@   note Doc(pos) = the tags and remaining lines of the LEADING group indexed for the line directly above pos (nothing if there is none); it is a pure observer: no memo, every call recomputes from the index
+
+//@ func pkgInfo.Comment
+//@   props C12
+//@   pure
+//@   requires p != nil && p.Package != nil && p.Package.Fset != nil
+//@   ensures spec_hasTrailingAt(p, pos) ==> eq(result, spec_groupLines(spec_trailingAt(p, pos)))
+//@   ensures !spec_hasTrailingAt(p, pos) ==> eq(result, spec_groupLines(spec_leadingAt(p, pos, 0)))
 
 // ---- comment tags (C12) ----
 
